@@ -60,7 +60,7 @@ class CurProc(plumpy.Process):
         last = self.seg >= len(self.script['segments'])
         if last:
             return 'done-%s' % self.raw_inputs['name']
-        nxt_sync = all(op[0] in ('sample', 'soon', 'out', 'parent_soon') for op in self.script['segments'][self.seg]) and self.script.get('sync')
+        nxt_sync = all(op[0] in ('sample', 'soon', 'out', 'parent_soon', 'parent_ctl') for op in self.script['segments'][self.seg]) and self.script.get('sync')
         fn = self.scont if nxt_sync else self.cont
         if wait:
             return ps.Wait(fn, 'w')
@@ -81,6 +81,15 @@ class CurProc(plumpy.Process):
             self.call_soon(_cb(self, op[1]))
         elif kind == 'out':
             self.out(op[1], op[2])
+        elif kind == 'parent_ctl':
+            # this process controls its parent from inside its own step (the parent's hooks then run in this process's context)
+            parent = PROCS.get(self.raw_inputs.get('parent'))
+            if parent is not None and not parent.has_terminated():
+                try:
+                    getattr(parent, op[1])(*([] if op[1] == 'play' else ['from-child']))
+                except Exception:  # noqa: BLE001
+                    pass
+                sample(self, 'step', 'seg%d:after-parent-%s' % (i, op[1]))
         elif kind == 'parent_soon':
             parent = PROCS.get(self.raw_inputs.get('parent'))
             if parent is not None and not parent.has_terminated():
